@@ -45,6 +45,10 @@ func Scenarios() []Scenario {
 			Threads: [][]ops.Op{{{K: "mkdir", P: "/a/d"}}, {{K: "mkdir", P: "/a/d"}}, {{K: "stat", P: "/a/d"}}}},
 		{Name: "S10-rename-vs-rename", Cfg: c, Setup: []ops.Op{{K: "put", P: "/f", C: "x"}, {K: "put", P: "/g", C: "y"}},
 			Threads: [][]ops.Op{{{K: "rename", P: "/f", Q: "/h"}}, {{K: "rename", P: "/g", Q: "/h"}}, {{K: "stat", P: "/h"}}}},
+		{Name: "S12-two-readers-two-files", Cfg: c, Setup: []ops.Op{{K: "put", P: "/f", C: "T100"}, {K: "put", P: "/g", C: "T100:2"}},
+			Threads: [][]ops.Op{{{K: "hopen", P: "/f", N: os.O_RDONLY, H: 0}, {K: "hreadall", H: 0}, {K: "hclose", H: 0}}, {{K: "hopen", P: "/g", N: os.O_RDONLY, H: 1}, {K: "hreadall", H: 1}, {K: "hclose", H: 1}}}},
+		{Name: "S13-two-readers-one-file-then-write", Cfg: c, Setup: []ops.Op{{K: "put", P: "/f", C: "T100"}},
+			Threads: [][]ops.Op{{{K: "hopen", P: "/f", N: os.O_RDONLY, H: 0}, {K: "hreadall", H: 0}, {K: "hclose", H: 0}, {K: "mkdir", P: "/d"}}, {{K: "hopen", P: "/f", N: os.O_RDONLY, H: 1}, {K: "hreadall", H: 1}, {K: "hclose", H: 1}}}},
 		{Name: "S11-chown-vs-chtimes-vs-write", Cfg: c, Setup: []ops.Op{{K: "put", P: "/f", C: "x"}},
 			Threads: [][]ops.Op{{{K: "chown", P: "/f"}}, {{K: "chtimes", P: "/f"}}, {{K: "hopen", P: "/f", N: os.O_RDWR, H: 2}, {K: "hwrite", H: 2, C: "zz"}, {K: "hclose", H: 2}}}},
 	}
@@ -380,9 +384,9 @@ func runSchedule(env *Env, scn *Scenario, seams bool, prefix []int) *c11Exec {
 		vsync.Quiesce()
 		tree := rig.Walk(st.AFS, "/")
 		vsync.Quiesce()
-		x.Tree = treeString(tree, true)
-		x.TapeHash = fileHash(st.Drive)
 		x.Malformed = malformed(st, tree)
+		x.Tree = treeString(tree, true) + malformedSuffix(x.Malformed)
+		x.TapeHash = fileHash(st.Drive)
 		rb, ierr, herr := Rebuild(env, st.Cfg, st.Drive)
 		if herr != nil {
 			return
@@ -506,8 +510,10 @@ func seqRefs(env *Env, scn *Scenario) ([]seqRef, string) {
 				_, _ = Guard(func() error { return h.F.Close() })
 			}
 			vsync.Quiesce()
-			ref.tree = treeString(rig.Walk(st.AFS, "/"), true)
+			t := rig.Walk(st.AFS, "/")
 			vsync.Quiesce()
+			// index entries that no listing reaches are part of the final state too (hidden from the walk, not from later calls)
+			ref.tree = treeString(t, true) + malformedSuffix(malformed(st, t))
 		})
 		if harness != "" {
 			return nil, harness
@@ -652,6 +658,13 @@ func malformed(st *rig.Stack, tree []rig.Entry) []string {
 	}
 	sort.Strings(out)
 	return out
+}
+
+func malformedSuffix(m []string) string {
+	if len(m) == 0 {
+		return ""
+	}
+	return "\n!index entries outside the tree: " + strings.Join(m, "; ")
 }
 
 // judgeC13: whatever the interleaving, the namespace the calls leave behind is a well-formed tree.
